@@ -14,7 +14,7 @@ theorem mint_ok_stages (strict : Bool) (s : ZSt) (sender : Id) (p : MintIn) (h :
     ∃ thr sigs uniq po, mintSigs s p = .ok (thr, sigs) ∧ mintChecks s sender p = .ok () ∧
       mintVerify strict s h thr sigs = .ok uniq ∧ mintPay s p.amount sigs pick = .ok po ∧
       o = { st := { s with minted := p.nonce :: s.minted, pools := po.pools }
-            transfer := ⟨zcnSC, sender, po.paid⟩
+            transfer := { src := zcnSC, dst := sender, amount := po.paid }
             share := po.share, paid := po.paid, rewarded := po.rewarded
             sigs := sigs, counted := uniq, threshold := thr } := by
   unfold mint at hm
@@ -36,7 +36,7 @@ theorem mint_ok_stages (strict : Bool) (s : ZSt) (sender : Id) (p : MintIn) (h :
         | error e => simp [h4] at hm
         | ok po =>
           simp only [h4, Except.ok.injEq] at hm
-          exact ⟨thr, sigs, uniq, po, rfl, rfl, rfl, rfl, hm.symm⟩
+          exact ⟨thr, sigs, uniq, po, rfl, rfl, (by first | rfl | exact h3), (by first | rfl | exact h4), hm.symm⟩
 
 theorem mint_none (strict : Bool) (s : ZSt) (sender : Id) (h : Fr) (pick : Nat → Nat) :
     mint strict s sender none h pick = .error .decode := rfl
@@ -153,7 +153,7 @@ theorem putSorted_sorted (s : Sig) (acc : List Sig) (h : IdsSorted acc) : IdsSor
         rcases List.mem_cons.mp hz with hz | hz
         · rw [hz]; exact h2
         · exact idLt_trans h2 (hy z hz)
-      · simp only [h2, if_false]
+      · simp only [h2]
         refine List.pairwise_cons.mpr ⟨?_, ih hys⟩
         intro z hz
         rcases mem_putSorted s ys z hz with hz | hz
@@ -296,7 +296,7 @@ theorem verifySigs_head (strict : Bool) (auths : List (Nat × Fr)) (h : Fr) (s :
       simp only [hk] at hv
       cases hs : s.sig with
       | none => simp [hs] at hv
-      | some σ => exact ⟨k, pk, σ, rfl, rfl, rfl⟩
+      | some σ => exact ⟨k, pk, σ, rfl, (by first | rfl | exact hk), rfl⟩
 
 theorem verifySignatures_true (strict : Bool) (auths : List (Nat × Fr)) (h : Fr) (l : List Sig)
     (hv : verifySignatures strict auths h l = true) : l ≠ [] ∧ verifySigs strict auths h l = true := by
@@ -327,5 +327,104 @@ theorem rne_close (N D : Nat) (hD : 0 < D) :
     rw [e]
     have h1 : ¬ D < 2 * (N % D) := fun h => hc (Or.inl h)
     constructor <;> omega
+
+/-! ### payout stage -/
+
+theorem mem_insertId (i x : Option Nat) (l : List (Option Nat)) : x ∈ insertId i l ↔ x = i ∨ x ∈ l := by
+  induction l with
+  | nil => simp [insertId]
+  | cons y ys ih =>
+    unfold insertId
+    split
+    · simp only [List.mem_cons, ih]
+      constructor
+      · rintro (h | h | h)
+        · exact Or.inr (Or.inl h)
+        · exact Or.inl h
+        · exact Or.inr (Or.inr h)
+      · rintro (h | h | h)
+        · exact Or.inr (Or.inl h)
+        · exact Or.inl h
+        · exact Or.inr (Or.inr h)
+    · simp only [List.mem_cons]
+
+theorem mem_sortIds (x : Option Nat) (l : List (Option Nat)) : x ∈ sortIds l ↔ x ∈ l := by
+  induction l with
+  | nil => simp [sortIds]
+  | cons y ys ih =>
+    show x ∈ insertId y (sortIds ys) ↔ _
+    rw [mem_insertId, ih, List.mem_cons]
+
+theorem length_insertId (i : Option Nat) (l : List (Option Nat)) : (insertId i l).length = l.length + 1 := by
+  induction l with
+  | nil => rfl
+  | cons y ys ih =>
+    unfold insertId
+    split
+    · simp [ih]
+    · simp
+
+theorem length_sortIds (l : List (Option Nat)) : (sortIds l).length = l.length := by
+  induction l with
+  | nil => rfl
+  | cons y ys ih =>
+    show (insertId y (sortIds ys)).length = _
+    rw [length_insertId, ih]; rfl
+
+/-- what a successful payout stage did. -/
+theorem mintPay_ok (s : ZSt) (amount : Nat) (sigs : List Sig) (pick : Nat → Nat) (po : Payout)
+    (h : mintPay s amount sigs pick = .ok po) :
+    sigs ≠ [] ∧ po.share = s.cfg.maxFee / sigs.length ∧ po.paid + po.share = amount ∧
+    (∃ sg ∈ sigs, sg.id = some po.rewarded) ∧
+    ∃ ap sp' u, aGet s.pools po.rewarded = some ap ∧ StakePool.distributeRewards ap.sp po.share = .ok (sp', u) ∧
+      po.pools = aSet s.pools po.rewarded { ap with sp := sp' } := by
+  unfold mintPay at h
+  cases hd : Coin.distributeCoin s.cfg.maxFee (sigs.length : Int) with
+  | error e => simp [hd] at h
+  | ok sr =>
+    obtain ⟨share, rem⟩ := sr
+    simp only [hd] at h
+    cases hmn : Coin.minusCoin amount share with
+    | error e => simp [hmn] at h
+    | ok paid =>
+      simp only [hmn] at h
+      cases hp : (sortIds (sigs.map (·.id)))[pick sigs.length]? with
+      | none => simp [hp] at h
+      | some oid =>
+        cases oid with
+        | none => simp [hp] at h
+        | some k =>
+          simp only [hp] at h
+          cases hk : aGet s.pools k with
+          | none => simp [hk] at h
+          | some ap =>
+            simp only [hk] at h
+            cases hr : StakePool.distributeRewards ap.sp share with
+            | error e => simp [hr] at h
+            | ok r =>
+              obtain ⟨sp', u⟩ := r
+              simp only [hr, Except.ok.injEq] at h
+              subst h
+              -- the fee share
+              have hshare : sigs.length ≠ 0 ∧ share = s.cfg.maxFee / sigs.length := by
+                unfold Coin.distributeCoin Coin.ofInt64 at hd
+                have hnn : ¬ ((sigs.length : Int) < 0) := by omega
+                simp only [hnn, if_false, Int.toNat_natCast] at hd
+                by_cases h0 : sigs.length = 0
+                · simp [h0] at hd
+                · simp only [h0, if_false, Except.ok.injEq, Prod.mk.injEq] at hd
+                  exact ⟨h0, hd.1.symm⟩
+              have hpaid : paid + share = amount := by
+                unfold Coin.minusCoin at hmn
+                by_cases hlt : amount < share
+                · simp [hlt] at hmn
+                · simp only [hlt, if_false, Except.ok.injEq] at hmn
+                  omega
+              have hmem : some k ∈ sigs.map (·.id) := by
+                rw [← mem_sortIds]
+                exact List.mem_of_getElem? hp
+              obtain ⟨sg, hsg, hid⟩ := List.mem_map.mp hmem
+              refine ⟨?_, hshare.2, hpaid, ⟨sg, hsg, hid⟩, ap, sp', u, (by first | rfl | exact hk), (by first | rfl | exact hr), rfl⟩
+              intro e; rw [e] at hshare; exact hshare.1 rfl
 
 end ZChain.Zcn
